@@ -220,6 +220,7 @@ func init() {
 		types: types, quickN: 12000, thorMul: 40, corpusN: 300, large: true,
 		weights: HWeights{Write: 16, ReadFrom: 14, Parse: 18, ParseNTL: 4, ParseNil: 4, Shrink: 14, Reset: 1, ResetData: 6, Probe: 40, WParse: 8, Faults: true},
 		scale:   []string{"hugeshrink", "stutter", "manyseq", "trickle", "hugegrow", "hugeblock"},
+		duo:     true,
 		newObs: func(pc *PCase, ps *PState, c *core.Case, st *core.Stats) histObserver {
 			return &c15obs{cr: commonReach{st: st}, st: st}
 		},
